@@ -165,6 +165,8 @@ def run_glb(c):
             if any(abs(a[0] - b[0]) > 1e-6 * size or abs(a[1] - b[1]) > 1e-6 * size for a, b in zip(old, now)):
                 moved = True
     cls = ["returned", "max_iter=%d" % c["max_iter"], "refine-" + c["refine"][0]]
+    if c.get("pocket"):
+        cls.append("isolated-pocket")
     if split_fixed:
         cls.append("fixed-cells-refined")  # (threshold 1: even fully owned cells are split between two optimisations)
     kinds = {m["kind"] for m in c["modules"]}
@@ -180,8 +182,20 @@ def run_glb(c):
 
 @st.composite
 def case_s(draw):
-    scen = draw(_i(0, 5))  # 0: a die with fixed modules whose cells are refined between two optimisations (threshold 1)
+    scen = draw(_i(0, 6))  # 0: a die with fixed modules whose cells are refined between two optimisations (threshold 1)
     # scenario 4: soft modules stacked on one centre on a grid of >= 9 cells (some cell is wholly covered by several modules)
+    if scen == 6:
+        # a pocket: a blockage strip of full height cuts a part of the die off (a cell that touches no other cell); one module nearly
+        # fills it, another one straddles the strip and is pulled into the pocket by a net
+        a, p_, Hh = draw(_i(18, 22)), draw(_i(12, 16)), draw(_i(13, 17))
+        dc = dict(unit="0.2", W=a + 1 + p_, H=Hh, regions=[[a, 0, a + 1, Hh, "#"]], fixed=[[[0, 0, 5, 5]]])
+        share = draw(st.sampled_from([82, 87, 90]))
+        mods = [dict(name="M0", kind="soft", area=p_ * Hh * share // 100, c=[2 * (a + 1) + p_, Hh]),
+                dict(name="M1", kind="soft", area=draw(_i(150, 220)), c=[2 * a + 1, Hh]),
+                dict(name="M2", kind="soft", area=draw(_i(50, 90)), c=[15, 20])]
+        nets = [dict(m=["M0", "M1"], w=draw(st.sampled_from([None, 2]))), dict(m=["M1", "M2"], w=None), dict(m=["M2", "F0"], w=None)]
+        return dict(die=dc, refine=["split", 2.0, draw(st.sampled_from([3, 4, 5]))], modules=mods, nets=nets, pocket=True,
+                    threshold=draw(st.sampled_from([0.8, 0.85])), alpha=draw(st.sampled_from([0.9, 1])), max_iter=draw(st.sampled_from([2, 3])))
     empty = scen == 4 or (scen != 0 and draw(_i(0, 2)) == 0)
     dc = draw(D.die_case(max_regions=0 if empty else 3, max_fixed=2, min_side=4, max_side=10, allow_fixed=not empty,
                          force_fixed=scen in (0, 1), units=["1", "1", "0.5", "2", "0.1", "2.5", "10"]))
